@@ -22,6 +22,11 @@ enum Prev {
 enum OpKind {
     Build,
     Compact,
+    /// ArchiveBuilder::build with every source added by path (`add_file`): the files lie in `<sandbox>/src/`
+    /// and their opens are numbered and faulted like every other call
+    BuildFromPaths,
+    /// OpenOptions::create — the "new empty archive" entry point
+    Create,
 }
 
 #[derive(Clone, Debug, Serialize, Deserialize)]
@@ -93,10 +98,11 @@ fn prev_spec(version: u8) -> ArchiveSpec {
 /// expected logical content of the destination if the operation completes
 fn expected_new(cfg: &Config) -> Vec<(String, Vec<u8>)> {
     match cfg.op {
-        OpKind::Build => {
+        OpKind::Build | OpKind::BuildFromPaths => {
             let s = fileset(cfg.version, cfg.fileset);
             (0..s.files.len()).map(|i| (s.files[i].name.clone(), s.content(i))).collect()
         }
+        OpKind::Create => vec![],
         OpKind::Compact => {
             // prev archive minus the removed file p1
             let s = prev_spec(cfg.version);
@@ -109,6 +115,16 @@ fn expected_new(cfg: &Config) -> Vec<(String, Vec<u8>)> {
 fn op_main(cfg: &Config, dest: &Path) -> ! {
     let r: Result<(), String> = match cfg.op {
         OpKind::Build => fileset(cfg.version, cfg.fileset).builder().build(dest).map_err(|e| e.to_string()),
+        OpKind::BuildFromPaths => {
+            let s = fileset(cfg.version, cfg.fileset);
+            let src = dest.parent().unwrap().join("src");
+            let mut b = wow_mpq::ArchiveBuilder::new().version(s.format_version()).listfile_option(wow_mpq::ListfileOption::Generate);
+            for (i, f) in s.files.iter().enumerate() {
+                b = b.add_file(src.join(format!("f{i}.bin")), &f.name);
+            }
+            b.build(dest).map_err(|e| e.to_string())
+        }
+        OpKind::Create => wow_mpq::OpenOptions::new().version(fileset(cfg.version, 0).format_version()).create(dest).map(|_| ()).map_err(|e| e.to_string()),
         OpKind::Compact => (|| {
             let mut m = MutableArchive::open(dest).map_err(|e| e.to_string())?;
             m.compact().map_err(|e| e.to_string())?;
@@ -175,6 +191,13 @@ fn trace_case(case: &Case) -> Value {
     } else {
         dest.clone()
     };
+    if case.cfg.op == OpKind::BuildFromPaths {
+        let s = fileset(case.cfg.version, case.cfg.fileset);
+        std::fs::create_dir_all(sandbox.join("src")).unwrap();
+        for i in 0..s.files.len() {
+            std::fs::write(sandbox.join("src").join(format!("f{i}.bin")), s.content(i)).unwrap();
+        }
+    }
     let prev_r = setup_prev(&case.cfg, &real);
     if case.cfg.dest % 4 == 3 {
         std::os::unix::fs::symlink("real/target.mpq", &dest).unwrap();
@@ -232,7 +255,9 @@ fn trace_case(case: &Case) -> Value {
             }
         }
         "new-complete" => {
-            if reported == "err" && case.cfg.op == OpKind::Build {
+            // (OpenOptions::create is a build followed by an open: an error of the open step comes after a build
+            // that succeeded, so only the state of the destination is judged there)
+            if reported == "err" && matches!(case.cfg.op, OpKind::Build | OpKind::BuildFromPaths) {
                 verdict = Some((format!("{opn}:reports-error-but-destination-replaced"), format!("the build returned an error ({}) yet the destination was replaced", rep.stdout.trim())));
             }
         }
@@ -274,6 +299,10 @@ fn configs() -> Vec<Config> {
         // destination names and kinds a writer's temporary-file scheme can trip over
         for (dest, prev) in [(1u8, Prev::Archive), (2, Prev::Archive), (2, Prev::Absent), (3, Prev::Archive)] {
             v.push(Config { op: OpKind::Build, version, prev, fileset: 0, dest });
+        }
+        for prev in [Prev::Archive, Prev::Absent] {
+            v.push(Config { op: OpKind::BuildFromPaths, version, prev: prev.clone(), fileset: 1, dest: 0 });
+            v.push(Config { op: OpKind::Create, version, prev, fileset: 0, dest: 0 });
         }
         v.push(Config { op: OpKind::Compact, version, prev: Prev::Archive, fileset: 0, dest: 3 });
         v.push(Config { op: OpKind::Compact, version, prev: Prev::Archive, fileset: 0, dest: 1 });
